@@ -228,6 +228,8 @@ STAGES['C08'] = {
         # the message grows between two signed renders: the signature part of the earlier render must not survive
         ('grows-between-renders', 'Smime', scfg(MAXP='2', MAXE='1', MAXA='1', ENCS='{"qp"}', SMIMES=KEYS2B,
                                                  OPSEQS='{<<"WriteTo", "AddAlt", "WriteTo">>, <<"Reader", "AddAlt", "File", "AddAlt", "WriteTo">>, <<"AddAlt", "WriteTo", "WriteTo">>}')),
+        # a file option of the caller gives the file a header field with two values (File.Header is public)
+        ('file-header-of-the-caller', 'Smime', scfg(MAXP='1', MAXE='1', MAXA='1', ENCS='{"qp"}', SMIMES=KEYS2, FDESCS='{"twotags"}', CCS='<<"crlf", "size300">>')),
         # files handed over as readers that are not at their start
         ('reader-at-offset', 'Smime', scfg(MAXP='1', MAXE='1', MAXA='1', ENCS='{"qp"}', SMIMES=KEYS2, SRCS='<<"readeroff", "reader">>', CCS='<<"crlf", "size300">>', ROTS='{0, 1}')),
         ('histories', 'Smime', scfg(MAXP='2', MAXE='1', MAXA='1', ENCS='{"qp"}', SMIMES=KEYS2B,
